@@ -76,8 +76,11 @@ MeanOf(x, others) ==
   IN DivBy(sum, k + 1)
 
 \* ---- behaviours ------------------------------------------------------------
+\* shapes that straddle 64 along one axis (block sizes used by parallel / chunked code paths must not show)
+LargeShapes == {<<70>>, <<65, 2>>, <<2, 65>>, <<1, 66, 2>>, <<1, 1, 65, 1>>}
 StartTensors ==
   {Mk(s, seed) : s \in UNION {ShapesOf(r) : r \in 1..4}, seed \in Seeds}
+  \cup {Mk(s, 7) : s \in LargeShapes}
   \cup {MkNested(<<<<2>>, <<1, 2>>>>, seed) : seed \in Seeds}
 
 \* Operands offered to a binary operation on x: the matching shape, and mismatching ones
